@@ -96,7 +96,11 @@ def make(t, center):
         n = np.array(t["n"], dtype=np.float32 if t.get("n32") else np.float64)
         return Rotate(n if not t.get("nlist") else list(t["n"]), t["theta"], **kw)
     if k == "affine":
-        return AffineTransform(np.array(t["m"], dtype=np.float32), **kw)
+        # the caller's own matrix, float32 or float64; it must come back untouched
+        m = np.array(t["m"], dtype=np.float64 if t.get("m64") else np.float32)
+        tf = AffineTransform(m, **kw)
+        tf._rv_matrix, tf._rv_matrix_copy = m, m.copy()
+        return tf
     raise ValueError(k)
 
 
@@ -229,6 +233,10 @@ def _exec(ctx, case):
                 return
         # first tree again after the second: still the same answer
         again = tf(trees[0])
+        if getattr(tf, "_rv_matrix", None) is not None and not np.array_equal(
+                tf._rv_matrix, tf._rv_matrix_copy):
+            return ctx.violation("caller-matrix-mutated", "AffineTransform modified the matrix "
+                                                          "array it was constructed with", case)
         if not all(np.array_equal(again.ndata[k], outs[0].ndata[k]) for k in "xyz"):
             return ctx.violation("call-history-dependence", "applying the same transform to the same "
                                                             "tree again gave different coordinates",
@@ -368,7 +376,7 @@ def draw_transform(rng):
         m[:3, :3] = rodrigues(unit(rng), th) @ np.diag(np.exp(rng.normal(0, .4, 3)))
         if rng.random() < 0.5:
             m[:3, 3] = rng.normal(0, 5, 3)
-        return {"kind": k, "m": m.round(5).tolist()}
+        return {"kind": k, "m": m.round(5).tolist(), "m64": bool(rng.random() < 0.5)}
     return {"kind": k, "theta": th}
 
 
